@@ -30,7 +30,7 @@ ASSUMPTIONS = [
     "imports of the importer's own ancestor packages are ignored (C02's carve-out)",
 ]
 
-EXT = ["os", "os.path", "logging", "logging.handlers", "handlers", "a.handlers", "proj_x", "proj_x.y", "projx.y", "pro",
+EXT = ["os", "os.path", "logging", "logging.handlers", "handlers", "a.handlers", "proj_x", "proj_x.y", "projx.y", "pro", "lib.proj", "myproj.core",
        "xml.etree.ElementTree", "util", "numpy.linalg"]
 INTERNAL_NAMES = ["a", "ab", "handlers", "util", "b", "m", "a_b"]
 
@@ -98,7 +98,21 @@ def check_case(spec: dict) -> dict:
         mp = pr.path(sub_rel) if sub_rel else pr.path()
         base = scan_outcome(pr.path(), mp)
         run = scan_outcome(pr.path(), mp, **kw)
+        rel_run = None
+        if spec.get("relative_paths"):
+            # the same request with root_path / module_path given relative to the working directory
+            import os
+            cwd = os.getcwd()
+            try:
+                os.chdir(pr.base)
+                rel_run = scan_outcome(root, root + ("/" + sub_rel if sub_rel else ""), **kw)
+            finally:
+                os.chdir(cwd)
     matched_any = False
+    if rel_run is not None and run[0] == "ok" and (rel_run[0] != "ok" or rel_run[1] != run[1]):
+        lost = sorted(set(run[1][0]) - set(rel_run[1][0])) if rel_run[0] == "ok" else rel_run[1]
+        v(f"relative-paths-differ/{opt['mode']}", f"option {opt}: root_path={root!r} given relative to the working directory loses modules {lost} "
+          f"compared with the absolute path", mode=opt["mode"])
     if base[0] != "ok" or run[0] != "ok":
         v("scan-error", f"default={base[1] if base[0] != 'ok' else 'ok'} option={run[1] if run[0] != 'ok' else 'ok'} opt={opt}")
     else:
@@ -199,6 +213,7 @@ def cases(draw):
     elif mode == "include-regex":
         opt["patterns"] = patterns_for(draw, "regex", ext_targets, internal)
     tree["option"] = opt
+    tree["relative_paths"] = draw(st.integers(0, 3)) == 0
     return tree
 
 
@@ -230,7 +245,7 @@ def exh_shard(arg, stt, deadline) -> None:
     opts += [{"mode": "include-regex", "patterns": [r]} for r in REGEXES]
     opts += [{"mode": "include-glob", "patterns": [GLOBS[i], GLOBS[(i * 5 + 3) % len(GLOBS)]]} for i in range(len(GLOBS))]
     for opt in opts:
-        spec = dict(FIXED, module_path=mp, option=opt)
+        spec = dict(FIXED, module_path=mp, option=opt, relative_paths=True)
         stt.record(spec, check_case(spec), enumerated=True, sample=(opt["mode"] == "include-glob" and len(opt["patterns"]) == 1 and opt["patterns"][0] in ("*handlers", "os*")))
 
 
